@@ -14,14 +14,22 @@ Proof. apply beq_refl. Qed.
 Lemma t_valid_unique k m m' s : t_valid k m s = true -> t_valid k m' s = true -> m = m'.
 Proof. unfold t_valid. rewrite !beq_eq. intros -> H. inversion H. reflexivity. Qed.
 
-Definition ex_issue := issue t_sign t_alg t_did.
+(* ex_issue builds the token without asking the guard (Issue as it was at 5d39523, and for signable
+   payloads what Issue returns now: ex_issue_opt_example) *)
+Definition ex_issue := issue_unguarded t_sign t_alg t_did.
+Definition ex_issue_opt := issue t_sign t_alg t_did.
 Definition ex_verify := verify t_valid t_alg t_did.
+Definition ex_verify_unguarded := verify_unguarded t_valid t_alg t_did.
 Definition ex_verify_pinned := verify_pinned t_valid t_alg t_did.
 
 Definition ex_cap : capm := mkCapm (bs "did:key:zAlice") (bs "store/add") (IMap [(bs "size", IInt 5%Z); (bs "a", IList [INull])]).
 Definition ex_tok_nonce := ex_issue 7 (bs "0.9.1") [237; 1; 9] [ex_cap] (Some []) (Some 100%Z) None (Some (bs "n1")) None.
 Definition ex_tok_nbf := ex_issue 7 (bs "0.9.1") [237; 1; 9] [ex_cap] None None None None (Some 42%Z).
 Definition ex_tok_plain := ex_issue 7 (bs "0.9.1") [237; 1; 9] [ex_cap] None (Some 100%Z) None None None.
+
+Example ex_issue_opt_example :
+  ex_issue_opt 7 (bs "0.9.1") [237; 1; 9] [ex_cap] (Some []) (Some 100%Z) None (Some (bs "n1")) None = Some ex_tok_nonce.
+Proof. vm_compute. reflexivity. Qed.
 
 (* the fixed verification accepts them; the pinned one rejected every token with nonce or nbf *)
 Example fixed_accepts : ex_verify ex_tok_nonce 7 = true /\ ex_verify ex_tok_nbf 7 = true /\ ex_verify ex_tok_plain 7 = true.
@@ -61,7 +69,8 @@ Example tamper_hyps_example :
 Proof. vm_compute. repeat split. Qed.
 
 (* ---------------------------------------------------------------- *)
-(* outside json_safe: a different token with the same signature verifies *)
+(* outside json_safe: before the guard (5d39523) a different token with the same signature
+   verified; with the guard it is rejected, and such payloads are not issued *)
 
 Definition cap_of (nb : ipld) : capm := mkCapm (bs "did:key:zAlice") (bs "store/add") nb.
 Definition tok_of (nb : ipld) : utoken := ex_issue 7 (bs "0.9.1") [237; 1; 9] [cap_of nb] None (Some 100%Z) None None None.
@@ -82,8 +91,10 @@ Definition tamper_witness (nb nb' : ipld) : Prop :=
   let t := tok_of nb in let t' := retag t nb' in
   wf_ipld (token_ipld t) = true /\ wf_ipld (token_ipld t') = true /\
   wf_ipld (payload_ipld t true) = true /\ wf_ipld (payload_ipld t' true) = true /\
-  ex_verify t 7 = true /\ ex_verify t' 7 = true /\ u_s t' = u_s t /\
-  map canon_cap (u_att t') <> map canon_cap (u_att t) /\ token_bytes t' <> token_bytes t.
+  ex_verify_unguarded t 7 = true /\ ex_verify_unguarded t' 7 = true /\ u_s t' = u_s t /\
+  map canon_cap (u_att t') <> map canon_cap (u_att t) /\ token_bytes t' <> token_bytes t /\
+  (* with the guard the altered token is rejected *)
+  ex_verify t' 7 = false.
 
 Example tamper_bytes_slash_map : tamper_witness nb_bytes nb_bytes'.
 Proof. unfold tamper_witness. repeat split; try (vm_compute; reflexivity); vm_compute; discriminate. Qed.
@@ -92,38 +103,57 @@ Proof. unfold tamper_witness. repeat split; try (vm_compute; reflexivity); vm_co
 Example tamper_invalid_utf8 : tamper_witness nb_str nb_str'.
 Proof. unfold tamper_witness. repeat split; try (vm_compute; reflexivity); vm_compute; discriminate. Qed.
 
+(* the originals with bytes / a link are still issued and verify; a caveat string that is not UTF-8 is refused *)
+Example guard_examples :
+  ex_issue_opt 7 (bs "0.9.1") [237; 1; 9] [cap_of nb_bytes] None (Some 100%Z) None None None = Some (tok_of nb_bytes) /\
+  ex_verify (tok_of nb_bytes) 7 = true /\ ex_verify (tok_of nb_link) 7 = true /\
+  ex_issue_opt 7 (bs "0.9.1") [237; 1; 9] [cap_of nb_str] None (Some 100%Z) None None None = None /\
+  ex_issue_opt 7 (bs "0.9.1") [237; 1; 9] [cap_of nb_bytes'] None (Some 100%Z) None None None = None /\
+  ex_verify (tok_of nb_str) 7 = false.
+Proof. vm_compute. repeat split. Qed.
+
 (* the audience: two non-key DIDs that differ in an invalid UTF-8 byte print the same JSON string *)
 Definition aud_a : bstr := core_tag ++ bs "web:" ++ [255].
 Definition aud_b : bstr := core_tag ++ bs "web:" ++ [254].
 Example tamper_audience_invalid_utf8 :
   let t := ex_issue 7 (bs "0.9.1") aud_a [ex_cap] None (Some 100%Z) None None None in
   let t' := mkU (u_v t) (u_iss t) aud_b (u_s t) (u_att t) (u_prf t) (u_exp t) (u_fct t) (u_nnc t) (u_nbf t) in
-  token_ids_ok t = true /\ token_ids_ok t' = true /\ ex_verify t 7 = true /\ ex_verify t' 7 = true /\ u_aud t' <> u_aud t.
+  token_ids_ok t = true /\ token_ids_ok t' = true /\ ex_verify_unguarded t 7 = true /\ ex_verify_unguarded t' 7 = true /\ u_aud t' <> u_aud t /\
+  ex_verify t 7 = false /\ ex_verify t' 7 = false /\
+  ex_issue_opt 7 (bs "0.9.1") aud_a [ex_cap] None (Some 100%Z) None None None = None.
 Proof. cbv zeta. repeat split; try (vm_compute; reflexivity); vm_compute; discriminate. Qed.
 
-(* undecodable audience bytes all print as the empty DID string (the premise did_okb of token_ids_ok) *)
+(* undecodable audience bytes all print as the empty DID string *)
 Example tamper_audience_undecodable :
   let t := ex_issue 7 (bs "0.9.1") [] [ex_cap] None (Some 100%Z) None None None in
   let t' := mkU (u_v t) (u_iss t) [0; 1] (u_s t) (u_att t) (u_prf t) (u_exp t) (u_fct t) (u_nnc t) (u_nbf t) in
   json_safe (payload_ipld t true) = true /\ json_safe (payload_ipld t' true) = true /\
-  token_ids_ok t = false /\ ex_verify t 7 = true /\ ex_verify t' 7 = true /\ u_aud t' <> u_aud t.
+  token_ids_ok t = false /\ ex_verify_unguarded t 7 = true /\ ex_verify_unguarded t' 7 = true /\ u_aud t' <> u_aud t /\
+  ex_verify t 7 = false /\ ex_verify t' 7 = false /\
+  ex_issue_opt 7 (bs "0.9.1") [] [ex_cap] None (Some 100%Z) None None None = None.
 Proof. cbv zeta. repeat split; try (vm_compute; reflexivity); vm_compute; discriminate. Qed.
 
-(* the tamper statement WITHOUT the json_safe premises is false (for this signature instance) *)
-Definition tamper_unrestricted : Prop :=
+(* tamper detection for the verification WITHOUT the guard (5d39523) is false (for this signature instance) *)
+Definition tamper_unguarded : Prop :=
   forall t t' k,
     wf_ipld (header_ipld (t_alg k) (u_v t)) = true -> wf_ipld (header_ipld (t_alg k) (u_v t')) = true ->
     wf_ipld (payload_ipld t true) = true -> wf_ipld (payload_ipld t' true) = true ->
-    token_ids_ok t = true -> token_ids_ok t' = true ->
-    ex_verify t k = true -> ex_verify t' k = true -> u_s t' = u_s t ->
+    token_bytes_ok t = true -> token_bytes_ok t' = true ->
+    ex_verify_unguarded t k = true -> ex_verify_unguarded t' k = true -> u_s t' = u_s t ->
     u_v t' = u_v t /\ u_iss t' = u_iss t /\ u_aud t' = u_aud t /\
     map canon_cap (u_att t') = map canon_cap (u_att t) /\ prf_list t' = prf_list t /\
     u_exp t' = u_exp t /\ option_map (map canon_fact) (u_fct t') = option_map (map canon_fact) (u_fct t) /\
     u_nnc t' = u_nnc t /\ u_nbf t' = u_nbf t.
 
-Theorem tamper_unrestricted_refuted : ~ tamper_unrestricted.
+Theorem tamper_unguarded_refuted : ~ tamper_unguarded.
 Proof.
   intros H. specialize (H (tok_of nb_bytes) (retag (tok_of nb_bytes) nb_bytes') 7).
   destruct H as [_ [_ [_ [C _]]]]; try (vm_compute; reflexivity).
   revert C. vm_compute. discriminate.
 Qed.
+
+(* the hypotheses of the guarded tamper theorem are satisfiable *)
+Example tamper_hyps_guarded :
+  wf_ipld (header_ipld (t_alg 7) (u_v ex_tok_nonce)) = true /\ wf_ipld (payload_ipld ex_tok_nonce true) = true /\
+  token_bytes_ok ex_tok_nonce = true /\ ex_verify ex_tok_nonce 7 = true /\ signable (t_alg 7) ex_tok_nonce = true.
+Proof. vm_compute. repeat split. Qed.
